@@ -2069,6 +2069,41 @@ READ_SITE_SEQ_NATIVE_TEST = r"""
             }
         }
         assert!(matches!(shared.read_site(), ReadStatus::Done), "after one call per record the reader is not done");
+
+        // an error of the genotype reader is passed on as that error, at any position in the stream
+        struct KvFail {
+            samples: Vec<Sample>,
+            good: usize,
+        }
+        impl genotype::Reader for KvFail {
+            fn current_contig(&self) -> &str {
+                "c"
+            }
+            fn current_position(&self) -> usize {
+                1
+            }
+            fn read_genotypes(&mut self) -> ReadStatus<Vec<genotype::Result>> {
+                if self.good == 0 {
+                    return ReadStatus::Error(io::Error::new(io::ErrorKind::InvalidData, "kv unreadable record"));
+                }
+                self.good -= 1;
+                ReadStatus::Read(vec![genotype::Result::Genotype(Zero); 3])
+            }
+            fn samples(&self) -> &[Sample] {
+                &self.samples
+            }
+        }
+        for good in 0..3usize {
+            let mut r = Reader::new_unchecked(Box::new(KvFail { samples: names.iter().map(|n| Sample::from(*n)).collect(), good }), map(), None);
+            for _ in 0..good {
+                assert!(matches!(r.read_site(), ReadStatus::Read(Site::Standard(_))));
+            }
+            match r.read_site() {
+                ReadStatus::Error(e) => assert!(e.to_string().contains("kv unreadable record"), "another error is reported: {e}"),
+                ReadStatus::Done => panic!("an unreadable record after {good} good ones is answered with Done (end of input)"),
+                ReadStatus::Read(_) => panic!("an unreadable record after {good} good ones is answered with a site"),
+            }
+        }
     }
 """
 
